@@ -282,6 +282,14 @@ func Eq(a, b *Term) *Term {
 			return Not(a)
 		}
 	}
+	// string(s[i]) == "c" for a one-byte ASCII constant: the UTF-8 encoding of a byte >= 0x80
+	// has two bytes, so equality holds iff the character itself is c
+	if a.Kind == KApp && a.Op == "byte_str" && b.Kind == KStr && len(b.S) == 1 && b.S[0] < 0x80 {
+		return Eq(a.Args[0], b)
+	}
+	if b.Kind == KApp && b.Op == "byte_str" && a.Kind == KStr && len(a.S) == 1 && a.S[0] < 0x80 {
+		return Eq(b.Args[0], a)
+	}
 	ca, cb := ctorOf(a), ctorOf(b)
 	if ca != nil && cb != nil {
 		if ca != cb {
